@@ -323,6 +323,10 @@ pub struct Printer<'a> {
     pub inserted_kinds: Vec<&'static str>,
     /// admit comments before / after / at the end of top-level statements
     pub statement_comments: bool,
+    /// rarely, also try comments at positions the pinned grammar rejects (after the return
+    /// expression of a do-block): the caller discards the program when the parser under test
+    /// refuses it, and checks the comment like any other when it accepts it
+    pub speculative_comments: bool,
     pub swallowed: usize,
     pub layout_edits: usize,
     pub position_kinds: std::collections::BTreeSet<&'static str>,
@@ -349,6 +353,7 @@ impl<'a> Printer<'a> {
             inserted: vec![],
             inserted_kinds: vec![],
             statement_comments: true,
+            speculative_comments: false,
             swallowed: 0,
             layout_edits: 0,
             position_kinds: Default::default(),
@@ -630,6 +635,17 @@ impl<'a> Printer<'a> {
                 out.push_str(&self.nl());
                 out.push_str("return ");
                 out.push_str(&self.slot(ret));
+                if self.comments && self.speculative_comments && self.tape.chance(1, 50) {
+                    if self.tape.chance(1, 2) {
+                        let c = self.new_comment("speculative:do-block-after-return-end-of-line");
+                        out.push_str("  ");
+                        out.push_str(&c);
+                    } else {
+                        let c = self.new_comment("speculative:do-block-line-after-return");
+                        out.push_str(&self.nl());
+                        out.push_str(&c);
+                    }
+                }
                 self.indent -= 2;
                 out.push_str(&self.nl());
                 out.push('}');
